@@ -52,6 +52,69 @@ pub fn full_cfg() -> Cfg {
     vol::cfg_from(&spec.name, img, Some(vec![]))
 }
 
+/// the base volume as another implementation leaves it: the first root slot is a volume-label entry ("VERIF.LBL" when
+/// read as an 8.3 name)
+pub fn foreign_cfg() -> Cfg {
+    let spec = vol::VolSpec { name: "n12-foreign".into(), fat: FatType::Fat12, bps: 512, spc: 1, fats: 2, root_entries: 512, clusters: Some(40), free: None, tail: 0 };
+    let (mut img, c) = vol::build(&spec).expect("foreign volume");
+    let g = vol::geo_of(&img);
+    let off = g.root_off() as usize;
+    let s = harness::builder::sfn_slot(b"VERIF   LBL", 0x08, 0, harness::builder::Times::default(), 0, 0);
+    img[off..off + 32].copy_from_slice(&s);
+    vol::cfg_from(&spec.name, img, c)
+}
+
+/// the limits apply to a name, i.e. to one path component: a path of three valid 100-byte names (302 bytes) is fine,
+/// a path whose last component alone is too long / empty / ill-formed is not
+pub fn deep_paths(cfg: &Cfg) -> Vec<(String, String)> {
+    let mut v = Vec::new();
+    let (st, _dev) = new_dev(&cfg.base);
+    let ctr = Rc::new(Cell::new(0u32));
+    let r = sess::guarded(|| -> Result<(), (String, String)> {
+        let fs = sess::mount(MemDev::new(st.clone()), cfg, &ctr).map_err(|e| ("C15/machinery/mount".to_string(), format!("{:?}", sess::ek(e))))?;
+        let root = fs.root_dir();
+        let (a, b, c, d) = ("a".repeat(100), "b".repeat(100), "é".repeat(50), "d".repeat(100));
+        let bad = |what: &str, e: ErrKind| (format!("C15/path/valid-name-rejected/{what}/{}", e.name()), format!("{what} of a 302-byte path made of three valid 100-byte names -> {e:?}"));
+        root.create_dir(&a).map_err(|e| bad("prepare", sess::ek(e)))?;
+        root.create_dir(&format!("{a}/{b}")).map_err(|e| bad("createdir", sess::ek(e)))?;
+        let e3 = "e".repeat(100);
+        root.create_dir(&format!("{a}/{b}/{e3}")).map_err(|e| bad("createdir", sess::ek(e)))?;
+        root.create_file(&format!("{a}/{b}/{c}")).map_err(|e| bad("createfile", sess::ek(e)))?;
+        root.create_file("existing.txt").map_err(|e| bad("prepare", sess::ek(e)))?;
+        root.rename("existing.txt", &root, &format!("{a}/{b}/{d}")).map_err(|e| bad("rename", sess::ek(e)))?;
+        let deep = root.open_dir(&format!("{}/{}", a.to_uppercase(), b.to_uppercase())).map_err(|e| bad("opendir", sess::ek(e)))?;
+        let mut names: Vec<String> = deep.iter().filter_map(Result::ok).map(|e| e.file_name()).filter(|n| n != "." && n != "..").collect();
+        names.sort();
+        let mut want = vec![c.clone(), d.clone(), e3.clone()];
+        want.sort();
+        if names != want {
+            return Err(("C15/path/accepted-name-not-listed-losslessly".into(), format!("deepest directory lists {} entries", names.len())));
+        }
+        // the last component is judged on its own
+        for (tail, kinds) in [("x".repeat(256), vec![ErrKind::InvalidFileNameLength]), ("x*y".to_string(), vec![ErrKind::UnsupportedFileNameCharacter])] {
+            let p = format!("{a}/{b}/{tail}");
+            let res = [
+                root.create_file(&p).map(|_| ()).map_err(sess::ek),
+                root.create_dir(&p).map(|_| ()).map_err(sess::ek),
+                root.rename(&format!("{a}/{b}/{c}"), &root, &p).map_err(sess::ek),
+            ];
+            for (i, r) in res.iter().enumerate() {
+                match r {
+                    Err(k) if kinds.contains(k) => {}
+                    other => return Err((format!("C15/path/wrong-verdict-on-last-component/{i}"), format!("last component {:?}…: {other:?}", tail.chars().take(8).collect::<String>()))),
+                }
+            }
+        }
+        Ok(())
+    });
+    match r {
+        Err(p) => v.push((format!("C15/path/panic/{}", panic_class(&p)), p.to_string())),
+        Ok(Err(x)) => v.push(x),
+        Ok(Ok(())) => {}
+    }
+    v
+}
+
 #[derive(Clone, Copy, PartialEq, Eq, Debug)]
 pub enum Via {
     CreateFile,
@@ -469,6 +532,23 @@ pub fn run(tier: &str) -> i32 {
             all.entry(sig).or_insert((msg, 0)).1 += 1;
         }
     }
+    // a name that spells the volume label is an ordinary name: the label is neither a file nor a directory, so it is
+    // never what a lookup finds, and it does not stand in the way of a creation
+    let mut label_evals = 0u64;
+    {
+        let foreign = foreign_cfg();
+        for n in ["VERIF.LBL", "verif.lbl", "Verif.Lbl", "VERIF", "verif   lbl", "x", "con"] {
+            for via in [Via::CreateFile, Via::CreateDir, Via::Rename] {
+                label_evals += 1;
+                for (sig, msg) in try_name(&foreign, n, via, false) {
+                    all.entry(sig.replace("C15/", "C15/beside-volume-label/")).or_insert((msg, 0)).1 += 1;
+                }
+            }
+        }
+    }
+    for (sig, msg) in deep_paths(&cfg) {
+        all.entry(sig).or_insert((msg, 0)).1 += 1;
+    }
     // lookups: every (stored name, looked-up name) pair over names with case partners, multi-character
     // expansions, punctuation partners ... against the fold the build documents (with and without `unicode`)
     let mut matrix_pairs = 0u64;
@@ -522,6 +602,7 @@ pub fn run(tier: &str) -> i32 {
         "candidates_skipped_by_deadline": ncap,
         "invalid_names_tried_on_a_full_volume": full_evals,
         "candidates_tried_in_a_populated_directory": populated_evals,
+        "names_tried_beside_a_volume_label": label_evals,
         "stored_vs_looked_up_name_pairs": matrix_pairs,
         "classes": classes,
         "technique": "bounded-exhaustive enumeration of candidate names on the real crate; acceptance judged by an independent statement of the documented character set, losslessness and lookup by listing / open through the public API",
